@@ -2,6 +2,7 @@ package core
 
 import (
 	"go/token"
+	"go/types"
 	"math"
 
 	"golang.org/x/tools/go/ssa"
@@ -70,6 +71,40 @@ func evalInterval(v ssa.Value, leaves map[string]Interval, max uint64, depth int
 			a := evalInterval(x.Call.Args[0], leaves, max, depth+1)
 			b := evalInterval(x.Call.Args[1], leaves, max, depth+1)
 			return Interval{minU(a.Lo, b.Lo), minU(a.Hi, b.Hi)}
+		}
+		// a function with a body: the join of what its returns can give, its parameters bound to the arguments'
+		// intervals and each return refined by the conditions that dominate it (`if v < 1 { return 1 }; return v`)
+		if h := x.Call.StaticCallee(); h != nil && h.Blocks != nil && h.Signature.Results().Len() == 1 && depth < 8 {
+			inner := map[string]Interval{}
+			for i, p := range h.Params {
+				if i < len(x.Call.Args) {
+					if b, ok := p.Type().Underlying().(*types.Basic); ok && b.Info()&types.IsInteger != 0 {
+						inner[ExprKey(p)] = evalInterval(x.Call.Args[i], leaves, max, depth+1)
+					}
+				}
+			}
+			out := Interval{max, 0}
+			n := 0
+			for _, r := range Returns(h) {
+				rv := RetOperand(r, 0)
+				if rv == nil {
+					return top
+				}
+				n++
+				iv := evalInterval(rv, inner, max, depth+4)
+				key := ExprKey(rv)
+				for _, cd := range CondsAt(r.Block()) {
+					f := FactOf(cd)
+					if lb, ok := f.LowerBound(key); ok && lb >= 0 && uint64(lb) > iv.Lo {
+						iv.Lo = uint64(lb)
+					}
+				}
+				out.Lo = minU(out.Lo, iv.Lo)
+				out.Hi = maxU(out.Hi, iv.Hi)
+			}
+			if n > 0 {
+				return out
+			}
 		}
 	case *ssa.Phi:
 		out := Interval{max, 0}
